@@ -212,6 +212,15 @@ def or_(*xs):
         return FALSE
     if len(out) == 1:
         return out[0]
+    # every variant of one subject tested: true
+    byv = {}
+    for x in out:
+        if x.op == "isvar":
+            byv.setdefault((x.a[0].id, x.a[1]), set()).add(x.a[2])
+    for (sid, path), vs in byv.items():
+        d = ADT_NAMES.get(path)
+        if d and len(vs) == len(d):
+            return TRUE
     # absorption: x | (x & y) = x ;  x | (!x & y) = x | y
     changed = False
     res = []
@@ -572,7 +581,19 @@ def lam_and(p, q):
     return lam([x], and_(apply_lam(p, [x]), apply_lam(q, [x])))
 
 
+_ANY_MEMO = {}
+
+
 def any_(it, l):
+    k = (it.id, l.id)
+    r = _ANY_MEMO.get(k)
+    if r is None:
+        r = _any(it, l)
+        _ANY_MEMO[k] = r
+    return r
+
+
+def _any(it, l):
     """exists x in it. l(x), pushed through map / filter / collect."""
     n = 0
     while n < 20:
